@@ -791,6 +791,43 @@ class PathEnd(Exception):
     pass
 
 
+def split_fn(dem):
+    """(class qualified name, method name, parameter text) of a demangled C++ function name"""
+    d = dem
+    if d.endswith(' const'):
+        d = d[:-6]
+    if not d.endswith(')'):
+        return '', d, ''
+    depth = 0
+    i = len(d) - 1
+    while i >= 0:
+        if d[i] == ')':
+            depth += 1
+        elif d[i] == '(':
+            depth -= 1
+            if depth == 0:
+                break
+        i -= 1
+    name, params = d[:i], d[i:]
+    # last top-level '::'
+    depth = 0
+    k = len(name) - 1
+    cut = -1
+    while k > 0:
+        ch = name[k]
+        if ch in '>)':
+            depth += 1
+        elif ch in '<(':
+            depth -= 1
+        elif ch == ':' and name[k - 1] == ':' and depth == 0:
+            cut = k - 1
+            break
+        k -= 1
+    if cut < 0:
+        return '', name, params
+    return name[:cut], name[cut + 2:], params
+
+
 def short_fn(d):
     """Readable short function key: drop template argument noise and parameter lists."""
     s = d
@@ -1539,7 +1576,7 @@ class Executor(Engine):
             for nm, ln in lst:
                 if ln:
                     d = dm[ln]
-                    cls = d[:d.index('(')].rsplit('::', 1)[0]
+                    cls = split_fn(d)[0]
                     out[(cls, vi)] = d
         self._virt = out
         return out
@@ -1565,6 +1602,14 @@ class Executor(Engine):
         except (KeyError, AttributeError, IndexError):
             raise OutOfReach('indirect call that is not a recognisable virtual call: %s' % ins.text[:100])
         vt = self.virt_table()
+        import re as _re
+        base = _re.sub(r'\.\d+$', '', cls)
+        cur = fr.fn.demangled
+        cur_cls = split_fn(cur)[0]
+        if cur_cls == base or cur_cls.startswith(base + '<'):
+            cls = cur_cls       # a call on an object of the enclosing (template) class
+        else:
+            cls = base
         dem = vt.get((cls, slot))
         if dem is None:
             # look in bases: any class whose method at this slot overrides -- use unique method name at slot
@@ -1576,10 +1621,15 @@ class Executor(Engine):
         key = 'virtual ' + dem
         c = self.contracts.get(key)
         if c is None:
+            c = self.contracts.get(dem)     # same-class call: the method's own contract
+        if c is None:
             raise OutOfReach('virtual call without contract: %s' % key)
         if c.model is not None:
             return self._apply_model(st, ins, c, args, None)
-        return self._apply_contract(st, ins, c, args, None, dem)
+        f2 = None
+        if dem in self.mod.by_demangled:
+            f2 = self.lookup_fn(dem)
+        return self._apply_contract(st, ins, c, args, f2, dem)
 
     def _derives(self, cls, base):
         return True
